@@ -18,9 +18,29 @@ def start(pid, tier, explanation, configs, **kw):
 def need(run, rid, facts, npath):
     b = facts.body(npath)
     if b is None:
+        b = hosted(run, facts, npath)
+    if b is None:
         run.missing(rid, npath)
     else:
         run.fn(b)
+    return b
+
+
+def hosted(run, facts, npath):
+    """An anchor function that no longer exists as a function of its own: when, in the reference tree, it had exactly one
+    caller that still exists, that caller (as one inlined unit) now hosts its code -- the author inlined the helper.  The
+    rule is evaluated on the host; a function that vanished together with its caller, or had several callers, stays a
+    missing anchor."""
+    ref = F.ref_items(facts.crate, facts.config) or {}
+    hosts = [h for h in (ref.get("callers") or {}).get(npath, []) if facts.body(h) is not None]
+    if len(hosts) != 1:
+        return None
+    hb = facts.body(hosts[0])
+    b = inl(facts, hb)
+    b.hosted_for = npath
+    note = "%s no longer exists as a function; evaluated on its only reference caller %s (helper inlined by the author)" % (npath, hosts[0])
+    if note not in run.notes:
+        run.notes.append(note)
     return b
 
 
@@ -102,7 +122,7 @@ def inl(facts, body, keep=(), force=(), **kw):
             # a Drop impl is known to the rules by its type, not by the method name
             return (cb.impl_of or "").rsplit("::", 1)[-1] not in v
         return cb.npath.rsplit("::", 1)[-1] not in v
-    return inline(body, facts, keep=set(keep), only=only, **kw)
+    return inline(body, facts, keep=set(keep), only=only, force=force, **kw)
 
 
 _CALLERS = {}
